@@ -53,6 +53,8 @@ pub fn main(args: &[String]) -> i32 {
                 Some("sweep") => crate::esweep::worker_main(),
                 Some("http") => crate::ehttp::worker_main(),
                 Some("payload") => crate::epayload::worker_main(),
+                Some("crash") => crate::ecrash::worker_main(),
+                Some("fault") => crate::efault::worker_main(),
                 other => eprintln!("unknown worker kind {other:?}"),
             }
             0
@@ -72,6 +74,8 @@ fn run_check(id: &str, tier: &str, replay: Option<&str>) -> i32 {
         "C12" => c12_check(tier, replay),
         "C15" | "C16" | "C20" => http_check(id, tier, replay),
         "C06" => c06_check(tier, replay),
+        "C04" => c04_check(tier, replay),
+        "C05" => c05_check(tier, replay),
         _ => {
             eprintln!("no check for property {id}");
             2
@@ -785,5 +789,184 @@ fn c06_check(tier: &str, replay: Option<&str>) -> i32 {
     rep.cov("exhaustive", json!(true));
     rep.assume("exhaustive over the stated payload alphabet only; the full payload space (up to 100 MiB of arbitrary bytes) cannot be enumerated");
     rep.assume("chunk boundaries are those of the in-process payload stream; wire-level chunking over a socket is exercised by C17's sessions");
+    rep.finish()
+}
+
+// ---------------------------------------------------------------------------------------------
+// C04: crash points
+
+fn c04_check(tier: &str, replay: Option<&str>) -> i32 {
+    let quick = tier != "thorough";
+    let mut rep = Report::new("C04", tier, "fault_enumeration");
+    if let Some(file) = replay {
+        let s = std::fs::read_to_string(file).unwrap_or_default();
+        let v: Value = serde_json::from_str(&s).unwrap_or(Value::Null);
+        let mut t = v["replay"]["task"].clone();
+        t["part"] = json!(0);
+        t["parts"] = json!(1);
+        let mut pool = crate::pool::Pool::spawn(1, "crash", &json!({"seed": seed()}));
+        let r = pool.map(&[t]);
+        if let Some(Ok(res)) = r.first() {
+            for f in res["findings"].as_array().cloned().unwrap_or_default() {
+                if f["point"] == v["replay"]["point"] && f["image"] == v["replay"]["image"] {
+                    println!("VIOLATION property=C04 replay={file}");
+                    println!("  {}", f["msg"].as_str().unwrap_or(""));
+                    return 1;
+                }
+            }
+        }
+        println!("replay of {file}: no violation of C04");
+        return 0;
+    }
+    let hists = crate::ecrash::histories(quick);
+    let parts = if quick { 4 } else { 2 };
+    let cap = if quick { 8 } else { 12 };
+    let pair_limit = if quick { 16 } else { 40 };
+    let mut tasks = vec![];
+    for h in &hists {
+        let names: Vec<&str> = h.iter().map(|c| c.name()).collect();
+        let big = h.iter().any(|c| matches!(c, crate::ecrash::COp::Av1m | crate::ecrash::COp::Av100k));
+        let pp = if big { parts * 4 } else { parts };
+        for part in 0..pp {
+            tasks.push(json!({"hist": names, "part": part, "parts": pp, "cap": cap, "pair_limit": pair_limit, "torn": !quick}));
+        }
+    }
+    let mut pool = crate::pool::Pool::spawn(threads(), "crash", &json!({"seed": seed()}));
+    let results = pool.map(&tasks);
+    drop(pool);
+    let mut samples = vec![];
+    for (k, r) in results.iter().enumerate() {
+        match r {
+            Ok(res) => {
+                if let Some(e) = res["error"].as_str() {
+                    rep.machinery_errors.push(format!("{:?}: {e}", tasks[k]["hist"]));
+                    continue;
+                }
+                if let Some(e) = res["conformance_error"].as_str() {
+                    rep.machinery_errors.push(format!("device model does not conform for {:?}: {e}", tasks[k]["hist"]));
+                }
+                for key in ["crash_points", "images", "distinct_images", "process_images", "power_images", "torn_images", "recovered_before", "recovered_after", "bounded_points"] {
+                    rep.add_count(key, res[key].as_u64().unwrap_or(0));
+                }
+                let mp = rep.coverage.get("max_unsynced_writes").and_then(|v| v.as_u64()).unwrap_or(0).max(res["max_pending"].as_u64().unwrap_or(0));
+                rep.cov("max_unsynced_writes", json!(mp));
+                if tasks[k]["part"] == 0 && samples.len() < 6 {
+                    samples.push(json!({"history": tasks[k]["hist"], "vfs_log_entries": res["log_len"]}));
+                }
+                for f in res["findings"].as_array().cloned().unwrap_or_default() {
+                    rep.violations.push(Violation {
+                        property: "C04".into(),
+                        signature: format!("ecrash|{}", f["class"].as_str().unwrap_or("")),
+                        message: format!("history {:?}: {}", tasks[k]["hist"], f["msg"].as_str().unwrap_or("")),
+                        replay: json!({"engine": "ecrash", "task": tasks[k], "point": f["point"], "image": f["image"]}),
+                    });
+                }
+            }
+            Err(e) => rep.machinery_errors.push(format!("crash worker: {e}")),
+        }
+    }
+    let images = rep.coverage.get("images").and_then(|v| v.as_u64()).unwrap_or(0);
+    let distinct = rep.coverage.get("distinct_images").and_then(|v| v.as_u64()).unwrap_or(0);
+    rep.cov("histories", json!(hists.len()));
+    rep.cov("evaluations", json!(images));
+    rep.cov("distinct_nontrivial", json!(distinct));
+    rep.cov("rule", json!(format!("one evaluation = one crash image (process-crash image, or power-loss image = last synced content of every file + a subset of the later unsynced writes/truncates in log order) of one crash point (every state-changing VFS call and every request boundary) of one history, recovered by the real SqliteStorage::new + integrity_check + full protocol read-back + one more AddVersion/AddSnapshot per client; all subsets when at most {cap} writes are unsynced, otherwise every prefix, every all-but-one and only-one, and all-but-two / only-two up to {pair_limit} unsynced writes; distinct = images that differ in bytes or in what had been acknowledged (identical ones are recovered once)")));
+    rep.cov("samples", json!(samples));
+    rep.cov("exhaustive", json!(true));
+    rep.cov("subset_cap_log2", json!(cap));
+    rep.assume("file-system model: a write may be lost until the file is synced; file creation and unlink are ordered and durable (the same device model as SQLite's own crash tests)");
+    rep.assume("the operation log of the shim VFS replayed on the model reproduces the files on disk byte for byte (checked on every run)");
+    rep.assume("an absent client and an existing client with no versions and no snapshot are the same stored state");
+    rep.finish()
+}
+
+// ---------------------------------------------------------------------------------------------
+// C05: fault sequences
+
+fn c05_check(tier: &str, replay: Option<&str>) -> i32 {
+    use crate::efault::FOp;
+    let quick = tier != "thorough";
+    let mut rep = Report::new("C05", tier, "fault_enumeration");
+    if let Some(file) = replay {
+        let s = std::fs::read_to_string(file).unwrap_or_default();
+        let v: Value = serde_json::from_str(&s).unwrap_or(Value::Null);
+        let mut t = v["replay"]["task"].clone();
+        t["only"] = v["replay"]["fault"]["plan"].clone();
+        let mut pool = crate::pool::Pool::spawn(1, "fault", &json!({"seed": seed()}));
+        let r = pool.map(&[t]);
+        if let Some(Ok(res)) = r.first() {
+            if let Some(f) = res["findings"].as_array().and_then(|a| a.first()) {
+                println!("VIOLATION property=C05 replay={file}");
+                println!("  {}", f["msg"].as_str().unwrap_or(""));
+                return 1;
+            }
+        }
+        println!("replay of {file}: no violation of C05");
+        return 0;
+    }
+    let mut tasks = vec![];
+    for layer in ["trait", "vfs"] {
+        for spec in ["SqlLib", "SqlHttp"] {
+            for state in ["empty", "one-version", "chain+snapshot", "chain+50KB-snapshot"] {
+                for op in FOp::all() {
+                    if state == "empty" && !matches!(op, FOp::AvNewClient | FOp::GetChild | FOp::GetSnapshot | FOp::AsSmall) {
+                        continue; // client A does not exist yet
+                    }
+                    tasks.push(json!({"layer": layer, "spec": spec, "state": state, "op": op.name(), "double": false, "window": 0}));
+                    let dbl = if layer == "trait" { true } else if quick { state == "chain+snapshot" && matches!(op, FOp::AvSmall | FOp::AsSmall) || (state == "empty" && op == FOp::AvNewClient && spec == "SqlHttp") } else { true };
+                    if dbl {
+                        tasks.push(json!({"layer": layer, "spec": spec, "state": state, "op": op.name(), "double": true, "window": if quick { 10 } else { 1000 }}));
+                    }
+                }
+            }
+        }
+    }
+    let mut pool = crate::pool::Pool::spawn(threads(), "fault", &json!({"seed": seed()}));
+    let results = pool.map(&tasks);
+    drop(pool);
+    let mut classes: std::collections::BTreeMap<String, u64> = Default::default();
+    let mut samples = vec![];
+    let mut runs = 0u64;
+    let mut nontrivial = 0u64;
+    for (k, r) in results.iter().enumerate() {
+        match r {
+            Ok(res) => {
+                if let Some(e) = res["error"].as_str() {
+                    rep.machinery_errors.push(format!("{}: {e}", tasks[k]));
+                    continue;
+                }
+                runs += res["runs"].as_u64().unwrap_or(0);
+                if let Some(o) = res["classes"].as_object() {
+                    for (c, n) in o {
+                        *classes.entry(c.clone()).or_insert(0) += n.as_u64().unwrap_or(0);
+                        if c != "not-reached" {
+                            nontrivial += n.as_u64().unwrap_or(0);
+                        }
+                    }
+                }
+                if samples.len() < 6 && k % 17 == 0 {
+                    samples.push(json!({"scenario": tasks[k], "storage_or_vfs_calls_in_request": res["calls"], "fault_runs": res["runs"]}));
+                }
+                for f in res["findings"].as_array().cloned().unwrap_or_default() {
+                    rep.violations.push(Violation {
+                        property: "C05".into(),
+                        signature: format!("efault|{}|{}|{}|{}", tasks[k]["layer"].as_str().unwrap_or(""), tasks[k]["spec"].as_str().unwrap_or(""), tasks[k]["op"].as_str().unwrap_or(""), f["class"].as_str().unwrap_or("")),
+                        message: format!("[{} layer, {}, state {}, request {}] {} — fault {}", tasks[k]["layer"].as_str().unwrap_or(""), tasks[k]["spec"].as_str().unwrap_or(""), tasks[k]["state"].as_str().unwrap_or(""), tasks[k]["op"].as_str().unwrap_or(""), f["msg"].as_str().unwrap_or(""), f["fault"]),
+                        replay: json!({"engine": "efault", "task": tasks[k], "fault": f["fault"]}),
+                    });
+                }
+            }
+            Err(e) => rep.machinery_errors.push(format!("fault worker: {e}")),
+        }
+    }
+    rep.cov("evaluations", json!(runs));
+    rep.cov("distinct_nontrivial", json!(nontrivial));
+    rep.cov("rule", json!("one evaluation = one request executed by the real code with one fault plan: the k-th storage-trait call (begin, each read, each write, commit) or the k-th VFS call (open, read, write, sync, truncate, delete, file-size, shm-map, lock) of that request fails, before or after taking effect, one-shot or sticky, for every k; double faults: all pairs at the trait layer, pairs within the stated window at the VFS layer; followed by a fault-free epilogue. Distinct plans by construction; non-trivial = the planned fault was actually reached and fired"));
+    rep.cov("outcome_classes", json!(classes));
+    rep.cov("scenarios", json!(tasks.len()));
+    rep.cov("samples", json!(samples));
+    rep.cov("exhaustive", json!(true));
+    rep.assume("only faults that report failure are injected (error return codes); silent corruption or short reads are not storage failures the code can be expected to detect");
+    rep.assume("persistent (SQLite) backend only, as the property states; an absent client and an existing client with no versions and no snapshot are the same stored state");
     rep.finish()
 }
